@@ -63,7 +63,8 @@ def specRunLine (rc : RunCase) : String :=
   let ctl := Spec.Run.applyAll { paused := rc.wait } rc.lines
   let stores := ",".intercalate (ctl.stores.map (fun (a, v) => s!"{toHex a}:{toHex v}"))
   let pins := ",".intercalate (ctl.pins.map (fun (p, v) => s!"{toHex p}:{toHex v}"))
-  let c18 := s!"stores={stores} setpins={pins} stopped={if ctl.stopped then 1 else 0} left={rc.lines.length - ctl.consumed}"
+  let ran := Spec.Run.everRuns rc.wait (Spec.Run.batches rc.lines rc.plan)
+  let c18 := s!"stores={stores} setpins={pins} stopped={if ctl.stopped then 1 else 0} left={rc.lines.length - ctl.consumed} ran={if ran then 1 else 0}"
   -- C13 view: the program alone (no control lines): run to the exit address
   if !rc.lines.isEmpty || rc.wait then s!"ctl {c18}" else
   let pc0 := (rc.cpu.regs >>> 64).setWidth 32
